@@ -124,6 +124,8 @@ def gen_op(rnd, p, prof, last_build=None):
         ts = rnd.sample(pool, min(k, len(pool)))
         j = 1 if prof['jmax'] <= 1 else rnd.choice([1] + list(range(2, prof['jmax'] + 1)))
         keep = rnd.random() < prof['p_keep']
+        if op == 'force' and prof.get('force_single'):
+            ts = ts[:1]
         if op == 'force' and len(ts) > 1:
             j = 1      # forced rebuilds of overlapping closures in parallel have no defined order
         return ('build', ts, dict(j=j, keep=keep, forced=(op == 'force')))
@@ -134,7 +136,13 @@ def gen_op(rnd, p, prof, last_build=None):
     if op in ('edit_r', 'edit_i', 'touch'):
         return (op, rnd.choice(sorted(p.sources)))
     if op == 'rm':
-        return ('rm', rnd.choice(tnames))
+        n = rnd.choice(tnames)
+        if (prof['jmax'] > 1 or prof.get('no_rm_stamp')) and p.targets[n].get('stamp'):
+            # redo treats a hand-removed checksummed target as "maybe changed" on its first evaluation and
+            # as "changed" on later ones; under parallelism which one a dependent gets is a race, so the
+            # combination is left to the serial profiles
+            return None
+        return ('rm', n)
     if op == 'doedit':
         return ('doedit', rnd.choice(sorted(p.dofiles)))
     if op == 'doadd':
